@@ -110,6 +110,7 @@ var engineBuilds = map[string]engineBuild{
 	"pipesim-race":  {name: "pipesim-race.test", pkg: "./processing", race: true},
 	"snapsim":       {name: "snapsim.test", pkg: "./snap"},
 	"snapsim-plain": {name: "snapsim-plain.test", pkg: "./snap", plain: true},
+	"snapsim-race":  {name: "snapsim-race.test", pkg: "./snap", race: true},
 	"gpkgsim":       {name: "gpkgsim.test", pkg: "./processing/gpkg"},
 	"gpkgsim-race":  {name: "gpkgsim-race.test", pkg: "./processing/gpkg", race: true},
 	"toolsim":       {name: "toolsim.test", pkg: "."},
